@@ -187,6 +187,9 @@ class Runtime:
             raise ex
         if o.startswith('rec:'):
             data = ('data', nid, int(o.split(':')[1]), kw)    # the payload depends on what the destination saw
+            if int(o.split(':')[1]) in self.runs[run].get('recnone', {}).get(nid, ()):
+                self.log(e='BodyEnd', r=run, n=nid, kw=kw, k=k, out=('rec', ('none',)), t=self.now_ms(), act=self.act)
+                return Recurrent(data=None)
             if nid in self.runs[run].get('recfalsy', ()):
                 # a falsy payload is still a payload: the start node must receive it
                 self.log(e='BodyEnd', r=run, n=nid, kw=kw, k=k, out=('rec', ('falsy',)), t=self.now_ms(), act=self.act)
